@@ -2,6 +2,7 @@
 package c09
 
 import (
+	"bytes"
 	"encoding/hex"
 	"encoding/json"
 	"fmt"
@@ -360,6 +361,7 @@ func roundTrips(run *vk.Run, rng *rand.Rand) {
 		}
 	}
 	// plugin names and payloads
+	var kept []keptPayload
 	names := []string{"a", "yubikey", "se", "x.y_z+w-1", "A", "Z9"}
 	for _, nm := range names {
 		for l := 0; l <= 40; l++ {
@@ -367,19 +369,37 @@ func roundTrips(run *vk.Run, rng *rand.Rand) {
 			rng.Read(data)
 			s := plugin.EncodeRecipient(nm, data)
 			n2, d2, err := plugin.ParseRecipient(s)
+			kept = append(kept, keptPayload{s, append([]byte{}, data...), d2})
 			run.Eval(1)
 			if err != nil || n2 != strings.ToLower(nm) && n2 != nm || string(d2) != string(data) {
 				run.Violation("C09:roundtrip:plugin-recipient", fmt.Sprintf("plugin recipient %q (name %q, %d bytes) parses to (%q, %x, %v)", s, nm, l, n2, d2, err), nil)
 			}
 			s = plugin.EncodeIdentity(nm, data)
 			n2, d2, err = plugin.ParseIdentity(s)
+			kept = append(kept, keptPayload{s, append([]byte{}, data...), d2})
 			if err != nil || n2 != strings.ToLower(nm) || string(d2) != string(data) {
 				run.Violation("C09:roundtrip:plugin-identity", fmt.Sprintf("plugin identity %q (name %q, %d bytes) parses to (%q, %x, %v)", s, nm, l, n2, d2, err), nil)
 			}
 		}
 	}
+	// what a parser returned is the caller's: later calls (accepted or refused) must not change it
+	plugin.ParseRecipient("age1notaplugin1qqqqqqqqqqqqqqqqqqqqqqqqqqqqqqqq")
+	age.ParseX25519Recipient(strings32First(keys))
+	for _, k := range kept {
+		if !bytes.Equal(k.got, k.want) {
+			run.Violation("C09:roundtrip:payload-changes-after-return", fmt.Sprintf("the payload returned for %q was %x and reads %x after later parser calls", k.s, k.want, k.got), nil)
+			break
+		}
+	}
 	run.Add("roundtrip_keys", len(keys))
 }
+
+type keptPayload struct {
+	s         string
+	want, got []byte
+}
+
+func strings32First(keys [][]byte) string { r, _ := strings32(keys[0]); return r }
 
 func bytesOf(b byte, n int) []byte {
 	out := make([]byte, n)
